@@ -10,11 +10,22 @@ namespace Cfavml
 structure ArithFaithful {T Reg : Type} (R : SimdRegister T Reg) (L : Nat) (lanes : Reg → Nat → T)
     (S : ScalarSpec T) : Prop where
   mem : MemFaithful R L lanes
+  bcast : BroadcastFaithful R L lanes
   add : Lanewise2 L lanes S.add (fun _ => True) R.add R.add_dense
   sub : Lanewise2 L lanes S.sub (fun _ => True) R.sub R.sub_dense
   mul : Lanewise2 L lanes S.mul (fun _ => True) R.mul R.mul_dense
   div : Lanewise2 L lanes S.div (fun y => S.divOk y = true) R.div R.div_dense
   max : Lanewise2 L lanes S.cmpMax (fun _ => True) R.max R.max_dense
   min : Lanewise2 L lanes S.cmpMin (fun _ => True) R.min R.min_dense
+
+/-- the contract for the horizontal reductions: zeroed accumulators, multiply-add with the lane function
+`fm` (`acc + x*y` unfused, or the fused `fma x y acc`), and the three roll-up / fold pairs -/
+structure ReduceFaithful {T Reg : Type} (R : SimdRegister T Reg) (L : Nat) (lanes : Reg → Nat → T)
+    (S : ScalarSpec T) (fm : T → T → T → T) (hsum hmax hmin : (Nat → T) → T) : Prop where
+  zeroed_dense_ok : ∃ d, R.zeroed_dense = pure d ∧ ∀ k, k < L * 8 → dlanes L lanes d k = S.zero
+  fmadd : Lanewise3 L lanes fm R.fmadd R.fmadd_dense
+  sum : FoldFaithful L lanes S.add hsum R.sum_to_register R.sum_to_value
+  max : FoldFaithful L lanes S.cmpMax hmax R.max_to_register R.max_to_value
+  min : FoldFaithful L lanes S.cmpMin hmin R.min_to_register R.min_to_value
 
 end Cfavml
